@@ -73,11 +73,36 @@ impl ModuleLoader {
             }
         }
 
-        self.search_with_patterns(module_path, full_search_patterns())
+        // next to the importing file first, then next to the entry file
+        let local = self.search_with_patterns(module_path, full_search_patterns());
+        if local.is_err() && self.base_dir != self.entry_dir {
+            let entry_root = self
+                .entry_dir
+                .canonicalize()
+                .unwrap_or_else(|_| self.entry_dir.clone());
+            if let Ok(found) = self.search_in(
+                &self.entry_dir,
+                &entry_root,
+                module_path,
+                full_search_patterns(),
+            ) {
+                return Ok(found);
+            }
+        }
+        local
     }
 
     fn canonicalize_if_exists(
         &self,
+        path: &Path,
+        module_path: &[String],
+    ) -> Result<Option<PathBuf>> {
+        self.canonicalize_under(&self.base_root, path, module_path)
+    }
+
+    fn canonicalize_under(
+        &self,
+        base_root: &Path,
         path: &Path,
         module_path: &[String],
     ) -> Result<Option<PathBuf>> {
@@ -94,7 +119,7 @@ impl ModuleLoader {
                 self.source.clone(),
             ))
         })?;
-        if !canonical.starts_with(&self.base_root) {
+        if !canonical.starts_with(base_root) {
             return Err(AelysError::Compile(CompileError::new(
                 CompileErrorKind::ModuleNotFound {
                     module_path: module_path.join("."),
@@ -108,7 +133,7 @@ impl ModuleLoader {
     }
 
     // validates path segments (no .., no slashes) and builds filesystem path
-    fn validate_and_build_path(&self, module_path: &[String]) -> Result<PathBuf> {
+    fn validate_and_build_path(&self, base_dir: &Path, module_path: &[String]) -> Result<PathBuf> {
         if module_path.is_empty() {
             return Err(AelysError::Compile(CompileError::new(
                 CompileErrorKind::ModuleNotFound {
@@ -119,7 +144,7 @@ impl ModuleLoader {
                 self.source.clone(),
             )));
         }
-        let mut path = self.base_dir.clone();
+        let mut path = base_dir.to_path_buf();
         for segment in module_path {
             if segment == ".." || segment == "." || segment.contains('/') || segment.contains('\\')
             {
@@ -142,7 +167,17 @@ impl ModuleLoader {
         module_path: &[String],
         patterns: &[ExtensionPattern],
     ) -> Result<ModuleResolution> {
-        let base_path = self.validate_and_build_path(module_path)?;
+        self.search_in(&self.base_dir, &self.base_root, module_path, patterns)
+    }
+
+    fn search_in(
+        &self,
+        base_dir: &Path,
+        base_root: &Path,
+        module_path: &[String],
+        patterns: &[ExtensionPattern],
+    ) -> Result<ModuleResolution> {
+        let base_path = self.validate_and_build_path(base_dir, module_path)?;
         let module_name = module_path
             .last()
             .expect("module_path validated as non-empty");
@@ -152,7 +187,7 @@ impl ModuleLoader {
         for pattern in patterns {
             let candidate = pattern.to_path(&base_path, module_name);
             searched_paths.push(candidate.display().to_string());
-            if let Some(canonical) = self.canonicalize_if_exists(&candidate, module_path)? {
+            if let Some(canonical) = self.canonicalize_under(base_root, &candidate, module_path)? {
                 return Ok(ModuleResolution {
                     path: canonical,
                     kind: pattern.kind(),
